@@ -71,6 +71,22 @@ pub fn params_for(prop: &str, r: &mut Rng, thorough: bool) -> Params {
             p.close_midway = r.chance(1, 3);
             p.manual_background = false;
             p.maintenance = r.chance(1, 2);
+            if r.chance(1, 3) {
+                // one committer now and then stays for milliseconds between its WAL write and
+                // its apply while many others pass through behind it: the commit queue fills
+                // up behind an unapplied tail (flow control must hold them back)
+                p.committers = 16;
+                p.delay_prefixes = vec!["commit.after_wal"];
+                p.delay_pct = 4;
+                p.max_delay_us = 8000;
+                p.value_pad = 100;
+                p.group_size = 4;
+                // enough distinct keys that more than a queue's worth of transactions can be
+                // in flight without conflicting with each other
+                p.counters = 8;
+                p.lists = 6;
+                p.groups = 6;
+            }
         }
         _ => {
             // C01: begin racing with flush / compaction
